@@ -18,6 +18,10 @@ NA = {
 }
 
 CHECKS = {
+ "C10": dict(level="exploration", ref="DESIGN.md section 4 (C10)",
+   text="Cross-configuration differential simulation: one scenario (program(s) + decision tape + fault plan + simulated file system; drawn from the generators of the exception, fiber, map, module, session, loop-program and heap-shape checks) and every script of the repository's test corpus is executed by runner binaries built WITHOUT hooks as checked (every debug-assertion-guarded check on, collect at every allocation), release (unchecked stack, raw active-fiber pointer, threshold pacing) and mixes of the safe_*/debug_stress_gc switches (thorough tier: each switch alone, all together, and dev); typed event history, outcome kind and messages must equal the checked build's. Scenarios are sampled: evidence, not proof.",
+   note="Trusted: the runner seams; generators' shapes bound what can be found (listed in the evidence); scenarios inside open C08 findings are excluded.",
+   technique="deterministic simulation across build configurations: same seed/tape/fault plan replayed in every build, history equality against the checked build"),
  "C16": dict(level="exploration", ref="DESIGN.md section 4 (C16)",
    text="Seeded search over allocation histories: generated loop programs with a bounded live set (ring of slots, optional transient spikes) and random subsets of 35 kinds of per-iteration garbage, with caught injected failures at PRNG-chosen dynamic occurrences inside the loop body, run under the real threshold pacing of the release build while a monitor fed by the hook's allocation/collection event stream checks at EVERY allocation the stated byte bound (heap <= max(64 KiB, 2 x live after the previous collection) + this allocation, with byte totals recomputed from the object list) and accounting consistency, and over the history compares object counts and rooted-object counts after a final collection between N and 2N iterations, pacing liveness, and the program result against a never-collect run. A clean batch is evidence, not proof.",
    note="Trusted: the observe-only hooks (event stream, statistics, force-collect) and the runner's monitor. The bound is on yarel's own accounting unit (shallow object sizes).",
@@ -72,7 +76,7 @@ def main():
     commits = subprocess.run(["git", "-C", "/repo", "log", "--format=%h %s", "--grep=^verif hooks"], stdout=subprocess.PIPE, text=True).stdout.strip().splitlines()
     doc = {
         "version": 1,
-        "setup_cmd": "python3 -m sim.build checked release checked+hooks release+hooks",
+        "setup_cmd": "python3 -m sim.build checked release checked+hooks release+hooks release+safe_active_fiber+debug_stress_gc",
         "hooks": {
             "guard": "verif_hooks",
             "enable": "cargo feature `verif_hooks` of the yarel crate; the runner crate's feature `hooks` turns it on (runner built as <profile>+hooks). Checks C08/C09/C14/C15/C10 run WITHOUT the feature (their seams are public API).",
